@@ -33,6 +33,7 @@ class FpExec:
         s.wheres = []      # (lineno, guard, condition)  conditions of np.where calls, with the guard under which the call's value is used
         s.sqrts = []       # (lineno, guard, argument)
         s.guard = [z3.BoolVal(True)]
+        s.side = []        # constraints defining nondeterministic library results (libm pow)
 
     def run(s, fn):
         s.env = {"x": s.x}
@@ -88,8 +89,14 @@ class FpExec:
             if isinstance(e.op, ast.Pow):
                 b = s.ev(e.right)
                 if b == 2:
+                    # Python's float ** 2 (and NumPy's scalar power) go through libm pow(), which is faithful but NOT always the correctly rounded
+                    # product: the result is the product or one of its two neighbours (np.square(a) IS the correctly rounded product)
                     a = s.num(s.ev(e.left))
-                    return z3.fpMul(RNE, a, a)
+                    m = z3.fpMul(RNE, a, a)
+                    y = z3.FreshConst(F64, "pow2")
+                    mb, yb = z3.fpToIEEEBV(m), z3.fpToIEEEBV(y)
+                    s.side.append(z3.If(z3.Or(z3.fpIsNaN(m), z3.fpIsInf(m), z3.fpIsZero(m)), z3.fpToIEEEBV(y) == mb, z3.Or(yb == mb, yb == mb + 1, yb == mb - 1)))
+                    return y
                 raise Unsupported("power other than 2")
             a, b = s.num(s.ev(e.left)), s.num(s.ev(e.right))
             f = {ast.Add: z3.fpAdd, ast.Sub: z3.fpSub, ast.Mult: z3.fpMul, ast.Div: z3.fpDiv}.get(type(e.op))
